@@ -74,7 +74,7 @@ Definition col_of_dattr (a : dattr) : Column :=
   {| c_name := if da_isdropped a then s_dropped_ ++ fmt_d (da_num a) else da_name a;
      c_typid := da_typid a; c_len := da_len a; c_num := da_num a; c_align := da_align a |}.
 Definition rel_dattrs (attrs : list dattr) (relOID : Z) : list dattr :=
-  isort da_num (filter (sel_all relOID) attrs).
+  isort_less (fun a b => da_num a <? da_num b) (filter (sel_all relOID) attrs).
 Definition rel_dcols (attrs : list dattr) (relOID : Z) : list Column := map col_of_dattr (rel_dattrs attrs relOID).
 
 (* the values of attribute number [attNum] in the live rows of the relation: decoded from exactly the stored bytes of
